@@ -298,6 +298,7 @@ pub fn exec_case<S: Sch>(case: &Case, out: &mut String, with_acc: bool) {
         let get = |k: &str| m.get(k).map(|s| s.as_str()).unwrap_or("-");
         let signer: usize = get("signer").parse().unwrap_or(0);
         let fail = get("fail") == "1";
+        let bad_signer = get("fail") == "2";
         out.push_str(line);
         out.push('\n');
         if signer >= keys.len() && (head == "step" || get("kind") == "build") {
@@ -684,6 +685,7 @@ pub fn exec_case<S: Sch>(case: &Case, out: &mut String, with_acc: bool) {
         }
         let key = &keys[signer];
         key.fail.store(fail, Ordering::SeqCst);
+        key.bad.store(bad_signer, Ordering::SeqCst);
         key.shape.store(get("sigshape").parse().unwrap_or(0), Ordering::SeqCst);
         let res: Option<Result<String, Error>> = guard(|| {
             let port = |o: Option<u16>| {
@@ -836,8 +838,39 @@ pub fn exec_case<S: Sch>(case: &Case, out: &mut String, with_acc: bool) {
             }
         });
         key.fail.store(false, Ordering::SeqCst);
+        key.bad.store(false, Ordering::SeqCst);
         key.shape.store(0, Ordering::SeqCst);
         let log = signlog_str(&keys);
+        // several threads reading one shared record at once (`Enr` is `Sync`), before anything else
+        // has looked at it: on a sample of the steps
+        let probe = if (case.id as usize + out.len()) % 4 == 0 {
+            let e_ref: &Enr<HKey<S::K>> = &*e;
+            let barrier = std::sync::Barrier::new(6);
+            let results: std::sync::Mutex<Vec<Option<(Vec<u8>, bool, [u8; 32], usize)>>> = std::sync::Mutex::new(Vec::new());
+            std::thread::scope(|sc| {
+                for _ in 0..6 {
+                    sc.spawn(|| {
+                        barrier.wait();
+                        let r = guard(|| {
+                            let pk = e_ref.public_key().encode().as_ref().to_vec();
+                            (pk, e_ref.verify(), e_ref.node_id().raw(), e_ref.size())
+                        });
+                        results.lock().unwrap_or_else(|p| p.into_inner()).push(r);
+                    });
+                }
+            });
+            let rs = results.into_inner().unwrap_or_else(|p| p.into_inner());
+            if rs.iter().any(|r| r.is_none()) {
+                " shared=panic"
+            } else if rs.windows(2).all(|w| w[0] == w[1]) {
+                " shared=same"
+            } else {
+                " shared=differ"
+            }
+        } else {
+            ""
+        };
+        let log = format!("{log}{probe}");
         match res {
             None => writeln!(out, "out res=panic signlog={log}").unwrap(),
             Some(Err(x)) => writeln!(out, "out res=err:{} signlog={log}", err_str(&x)).unwrap(),
